@@ -12,6 +12,8 @@ import (
 // Ctx carries the loaded program plus the derived call graph and entry points.
 type Ctx struct {
 	wrappers          map[*ssa.Function]*storeWrap
+	writeRecs         map[*types.Named]*writeRec
+	queuers           map[*ssa.Function]*queuer
 	keyPats           []keyPattern
 	readers           map[string][]readerInfo
 	narrow            map[*types.TypeName]string
